@@ -384,6 +384,54 @@ func resolveRenames(p *Program, rolesPath string) []string {
 			}
 		}
 	}
+	// 2b. last resort: a caller that lost exactly one recorded callee and gained exactly one fresh
+	// callee, whatever name, receiver and parameter list the fresh one has (a helper moved onto a
+	// new state struct)
+	for _, m := range missing {
+		if done[m.Name] {
+			continue
+		}
+		var cand *roleEntry
+		ambiguous := false
+		for _, callerName := range m.Callers {
+			caller, ok := curBy[callerName]
+			if !ok {
+				continue
+			}
+			// missing callees of this caller (recorded view) and fresh callees (current view)
+			nMissing := 0
+			if rc, ok := recBy[callerName]; ok {
+				for _, ce := range rc.Callees {
+					for _, mm := range missing {
+						if mm.Name == ce && !done[mm.Name] {
+							nMissing++
+						}
+					}
+				}
+			}
+			var freshCallees []roleEntry
+			for _, ce := range caller.Callees {
+				for i := range fresh {
+					if fresh[i].Name == ce && !used[fresh[i].Name] && fresh[i].Pkg == m.Pkg {
+						freshCallees = append(freshCallees, fresh[i])
+					}
+				}
+			}
+			if nMissing == 1 && len(freshCallees) == 1 {
+				if cand != nil && cand.Name != freshCallees[0].Name {
+					ambiguous = true
+				}
+				fc := freshCallees[0]
+				cand = &fc
+			}
+		}
+		if cand != nil && !ambiguous {
+			nameAlias[cand.Name] = m.Name
+			used[cand.Name] = true
+			done[m.Name] = true
+			notes = append(notes, fmt.Sprintf("unexported function %s is analysed under its recorded name %s (the only new callee of a caller that lost exactly this callee)", cand.Name, m.Name))
+		}
+	}
 	// 3. renamed unexported struct fields: per struct type, a recorded field that is gone and a
 	// current field that is not recorded, with the same type — unique, or at the same position
 	curFields := currentFields(p)
